@@ -18,17 +18,20 @@ type (
 		Fields map[string]Pat
 		Open   bool
 	}
-	pList  struct{ Elems []Pat }      // slice with exactly these elements (a pSpread element matches a spread of a hole)
-	pLeaf  struct{ Name string }      // the original hole ⟨Name⟩ (possibly wrapped in an interface)
-	pSpread struct{ Name string }     // ...⟨Name⟩
-	pStr   struct{ S string }         // string constant
-	pTok   struct{ V AV }             // token constant
-	pNil   struct{}                   // nil / zero
-	pAny   struct{}                   // anything
-	pBind  struct{ Label string; P Pat } // remember the matched value under Label; later occurrences must be identical
-	pSame  struct{ Label string }     // same value as bound under Label
-	pVal   struct{ V AV }             // exactly this abstract value
-	pOr    struct{ Alts []Pat }
+	pList   struct{ Elems []Pat } // slice with exactly these elements (a pSpread element matches a spread of a hole)
+	pLeaf   struct{ Name string } // the original hole ⟨Name⟩ (possibly wrapped in an interface)
+	pSpread struct{ Name string } // ...⟨Name⟩
+	pStr    struct{ S string }    // string constant
+	pTok    struct{ V AV }        // token constant
+	pNil    struct{}              // nil / zero
+	pAny    struct{}              // anything
+	pBind   struct {
+		Label string
+		P     Pat
+	} // remember the matched value under Label; later occurrences must be identical
+	pSame struct{ Label string } // same value as bound under Label
+	pVal  struct{ V AV }         // exactly this abstract value
+	pOr   struct{ Alts []Pat }
 )
 
 type matcher struct {
